@@ -991,6 +991,17 @@ theorem x509_trailing_rejected (k : CertKind) (c : CertSpec) (rest : List Nat) (
     x509New k (encCert c ++ rest) = .error .invalidData :=
   x509New_trailing k c rest idn sdn s a hwf hi hs hext hval hr hlen
 
+set_option maxRecDepth 100000 in
+example : ([0] : List Nat) ≠ [] ∧ (encCert sampleDac ++ [0]).length ≤ MAX_LEN := ⟨by decide, by decide⟩
+
+set_option maxRecDepth 100000 in
+/-- the hypothesis of `x509_accepts_only_profile` is satisfiable: the sample DAC is accepted -/
+example : ∃ c, x509New .dac (encCert sampleDac) = .ok c := by
+  obtain ⟨c, h, _⟩ := x509_parse_encode .dac sampleDac { vid := some 0xFFF1, pid := none }
+    { vid := some 0xFFF1, pid := some 0x8000 } (List.replicate 20 1) (some (List.replicate 20 2)) sampleDac_wf
+    (by decide) (by decide) (by decide) rfl (by decide)
+  exact ⟨c, h⟩
+
 /-- **a Matter vendor / product id that is not four hexadecimal digits is refused** (whatever its string type):
 `parse_hex_u16` accepts exactly four hex digits, and an attribute it refuses makes `MatterDnAttrs::parse` fail -/
 theorem x509_bad_vendor_id_rejected :
@@ -1037,6 +1048,8 @@ open Codec.Cd
 built on the never-panic theorems of the TLV reader (C16) -/
 theorem cd_decode_total (content : Tlv.Bytes) (h : content.length + 1 < Tlv.USIZE) : CSafe (decode content) :=
   decode_safe content h
+
+example : ([0x15, 0x18] : Tlv.Bytes).length + 1 < Tlv.USIZE := by decide
 
 /-- **CD content round trip**: the TLV structure the model encoder writes (Matter layout: format version, vendor id,
 product id array, device type, certificate id, security level / information, version number, certification type, the
